@@ -398,15 +398,48 @@ func verifHosts(l *roundRobinLoadBalancer) []*Host { return l.hosts.Load().([]*H
 // goroutine is started). Handshake is brought under contract only for the lock/immutability discipline.
 //@ func proxycore.ClientConn.SendAndReceive [C01, C02]
 //@   requires c != nil && c.closingMu != nil && c.pending != nil && c.conn != nil
-//@   ensures decoded-or-error: result1 == nil && result0 != nil ==> result0.Body != nil && result0.Body.Message != nil && (typeis(result0.Body.Message, *message.RowsResult) ==> rowsOK(as(result0.Body.Message, *message.RowsResult))) [C17]
+//@   ensures decoded-or-error: result1 == nil && result0 != nil ==> result0.Body != nil && result0.Body.Message != nil && valof(result0.Body.Message) != 0 && (typeis(result0.Body.Message, *message.RowsResult) ==> rowsOK(as(result0.Body.Message, *message.RowsResult))) [C17]
 //@   modifies c.inflight, c.pending.$has, c.pending.$tag, c.pending.$val
+
+// C17: the handshake helpers decode what the backend answers to REGISTER and to the SASL exchange;
+// whatever that is, they return (an error for anything unexpected) and never panic.
+//@ iface proxycore.Authenticator.InitialResponse
+//@   implementers *proxycore.passwordAuth
+//@   requires c != nil && c.logger != nil
+//@   modifies nothing
+//@ iface proxycore.Authenticator.EvaluateChallenge
+//@   implementers *proxycore.passwordAuth
+//@   modifies nothing
+//@ iface proxycore.Authenticator.Success
+//@   implementers *proxycore.passwordAuth
+//@   modifies nothing
+
+//@ func proxycore.ClientConn.registerForEvents [C17]
+//@   requires c != nil && c.closingMu != nil && c.pending != nil && c.conn != nil && c.codec != nil
+//@   modifies c.inflight, c.pending.$has, c.pending.$tag, c.pending.$val
+
+//@ func proxycore.ClientConn.authInitialResponse [C17]
+//@   requires c != nil && c.closingMu != nil && c.pending != nil && c.conn != nil && c.codec != nil && c.logger != nil && auth != nil && authenticate != nil
+//@   modifies c.inflight, c.pending.$has, c.pending.$tag, c.pending.$val
+
+//@ func proxycore.ClientConn.authChallenge [C17]
+//@   requires c != nil && c.closingMu != nil && c.pending != nil && c.conn != nil && c.codec != nil && auth != nil && challenge != nil
+//@   modifies c.inflight, c.pending.$has, c.pending.$tag, c.pending.$val
+
+// C17: the heartbeat loop survives whatever the backend answers to OPTIONS.
+//@ loop proxycore.ClientConn.Heartbeats #1
+//@   invariant idleTimer != nil
+
+//@ func proxycore.ClientConn.Heartbeats [C17]
+//@   requires c != nil && c.closingMu != nil && c.pending != nil && c.conn != nil && c.codec != nil && logger != nil
+//@   modifies *, c.inflight, c.pending.$has, c.pending.$tag, c.pending.$val, any(time.Timer).$armed
 
 //@ loop proxycore.ClientConn.Handshake #1
 //@   invariant i >= 0 && i % 2 == 0 && len(startupKeysAndValues) % 2 == 0
 
 //@ func proxycore.ClientConn.Handshake [C18, C17]
 //@   preserves-type proxycore.Cluster, proxycore.ClusterConfig
-//@   requires c != nil && c.closingMu != nil && c.pending != nil && c.conn != nil && c.codec != nil
+//@   requires c != nil && c.closingMu != nil && c.pending != nil && c.conn != nil && c.codec != nil && c.logger != nil
 //@   modifies *, c.pending.$has, c.pending.$tag, c.pending.$val
 
 //@ func proxycore.Conn.Close [C14]
@@ -482,7 +515,7 @@ func verifHosts(l *roundRobinLoadBalancer) []*Host { return l.hosts.Load().([]*H
 
 //@ func proxycore.ConnectClient [C08]
 //@   trusted
-//@   ensures result1 == nil ==> result0 != nil && fresh(result0) && result0.preparedCache == config.PreparedCache && result0.closingMu != nil && result0.pending != nil && fresh(result0.pending) && result0.conn != nil && result0.codec != nil && result0.compression == config.Compression
+//@   ensures result1 == nil ==> result0 != nil && fresh(result0) && result0.preparedCache == config.PreparedCache && result0.closingMu != nil && result0.pending != nil && fresh(result0.pending) && result0.conn != nil && result0.codec != nil && result0.logger != nil && result0.compression == config.Compression
 //@   ensures result1 != nil ==> result0 == nil
 //@   modifies nothing
 
@@ -508,7 +541,7 @@ func verifHosts(l *roundRobinLoadBalancer) []*Host { return l.hosts.Load().([]*H
 //@   local $ccKsTried bool = false
 //@   local $ccKs string = ""
 //@   local $ccKsOK bool = false
-//@   requires p != nil
+//@   requires p != nil && p.logger != nil
 //@   before proxycore.ConnectClient#1 set $ccCache = arg2.PreparedCache; $ccCompression = arg2.Compression
 //@   before proxycore.ClientConn.Handshake#1 set $ccHsVersion = arg2; $ccHsCompressionOK = ite(p.config.Compression == "", len(arg4) == 0, len(arg4) == 2 && arg4[0] == "COMPRESSION" && arg4[1] == p.config.Compression)
 //@   after proxycore.ClientConn.Handshake#1 set $ccHsDone = (result1 == nil); $ccHsGot = result0
